@@ -359,3 +359,124 @@ func c15E2EOnce(c *Ctx, rep int) {
 	}
 	c.Ev.Sample(map[string]any{"part": "e2e", "flooder": flooder, "flood_admitted": admitted, "flood_refused": refused, "doh_flooder": v6flooder, "doh_200": ok200, "doh_503": n503})
 }
+
+// c15E2EGlobal: the global limit is shared, a subnet's own budget is not. While sixty other subnets
+// keep the global bucket (100/s) empty, a quiet subnet (own limit 1/s, burst 40) keeps asking and
+// is refused - for the global reason, nothing is admitted for it. Half a second after the flood
+// has stopped the global bucket holds 50 tokens again, the quiet subnet's own bucket was never
+// used (at most 8 of its queries were admitted: <= 32 of its 40 tokens): its next query must be
+// served, not refused.
+func c15E2EGlobal(c *Ctx) {
+	b, err := NewBed(c, "limiter-global", BedOpts{Upstreams: []string{"pipe"}, Listeners: []string{"udp"}, UdpRcvBuf: 4 << 20,
+		Limiter: "  global_limit: 100\n  client:\n    limit: 1\n    burst: 40\n"})
+	if err != nil {
+		c.startFailure(err, "c15-e2e-global")
+		return
+	}
+	defer b.Stop()
+	victim, err := dnsclient.DialUDP("127.77.7.1", b.L["udp"])
+	if err != nil {
+		c.Inconclusive("bind victim: " + err.Error())
+		return
+	}
+	defer victim.Close()
+	stop := make(chan struct{})
+	done := make(chan int, 10)
+	for f := 0; f < 10; f++ {
+		go func(f int) {
+			sent := 0
+			defer func() { done <- sent }()
+			// six /24s per flooder, sixty in all, each with a full bucket of its own
+			var socks []*dnsclient.UDPClient
+			for k := 0; k < 6; k++ {
+				fc, err := dnsclient.DialUDP(fmt.Sprintf("127.78.%d.1", f*6+k+1), b.L["udp"])
+				if err != nil {
+					return
+				}
+				defer fc.Close()
+				socks = append(socks, fc)
+			}
+			for i := 0; ; i++ {
+				select {
+				case <-stop:
+					return
+				default:
+				}
+				fc := socks[i%len(socks)]
+				fc.Send(mkQuery(uint16(i), fmt.Sprintf("ok-gf%dx%d.pipe.test.", f, i), dns.TypeA, dns.ClassINET, false))
+				sent++
+				time.Sleep(3 * time.Millisecond) // ~300 queries a second per flooder, 3000 in all: thirty times the global rate, and the socket buffers survive
+			}
+		}(f)
+	}
+	time.Sleep(300 * time.Millisecond) // the global bucket's burst is gone
+	const nTry = 60
+	for i := 0; i < nTry; i++ {
+		victim.Send(mkQuery(uint16(1000+i), fmt.Sprintf("ok-gv%d.pipe.test.", i), dns.TypeA, dns.ClassINET, false))
+		time.Sleep(20 * time.Millisecond)
+	}
+	close(stop)
+	floodSent := 0
+	for f := 0; f < 10; f++ {
+		floodSent += <-done
+	}
+	time.Sleep(500 * time.Millisecond)
+	admitted1, refused1 := 0, 0
+	for _, p := range victim.Received() {
+		m := new(dns.Msg)
+		if m.Unpack(p.Data) != nil {
+			continue
+		}
+		if m.Rcode == dns.RcodeRefused {
+			refused1++
+		} else {
+			admitted1++
+		}
+	}
+	c.Ev.Eval(nTry)
+	c.Ev.Count("e2e_global_flood_queries_sent", int64(floodSent))
+	c.Ev.Count("e2e_global_victim_refused_during_flood", int64(refused1))
+	c.Ev.Count("e2e_global_victim_admitted_during_flood", int64(admitted1))
+	if admitted1 > 8 || refused1 < nTry/2 {
+		c.Inconclusive(fmt.Sprintf("global-limit scenario: the flood did not keep the global bucket empty (quiet subnet: %d admitted, %d refused of %d)", admitted1, refused1, nTry))
+		return
+	}
+	// after the flood: the quiet subnet's query between two queries of subnets that have never been
+	// seen before. When those two are served, the global bucket had tokens before and after (it refills
+	// at 100/s and nobody else is asking): a refusal in between is the quiet subnet's own bucket.
+	ask := func(id uint16, name, from string) (refused, ok bool) {
+		x := b.Exchange("udp", mkQuery(id, name, dns.TypeA, dns.ClassINET, false), xOpts{Timeout: 3 * time.Second, LocalIP: from})
+		m := new(dns.Msg)
+		if x.Err != nil || m.Unpack(x.Resp) != nil {
+			return false, false
+		}
+		return m.Rcode == dns.RcodeRefused, true
+	}
+	sandwiches, served := 0, 0
+	for k := 0; k < 3; k++ {
+		r1, ok1 := ask(uint16(7000+k), fmt.Sprintf("ok-gfresh%da.pipe.test.", k), fmt.Sprintf("127.79.%d.1", 2*k+1))
+		rv, okv := ask(uint16(7100+k), fmt.Sprintf("ok-gv-after%d.pipe.test.", k), "127.77.7.2")
+		r2, ok2 := ask(uint16(7200+k), fmt.Sprintf("ok-gfresh%db.pipe.test.", k), fmt.Sprintf("127.79.%d.1", 2*k+2))
+		c.Ev.Eval(1)
+		switch {
+		case !ok1 || !okv || !ok2 || r1 || r2:
+			// the proxy is still busy with the flood, or something was lost: this round says nothing
+		case rv:
+			sandwiches++
+		default:
+			served++
+		}
+		time.Sleep(100 * time.Millisecond)
+	}
+	if sandwiches >= 2 {
+		c.Violation("e2e:isolation:refused-after-global-exhaustion", fmt.Sprintf("global_limit 100, client limit 1 burst 40: while sixty other /24s kept the global bucket empty (%d queries) the quiet subnet 127.77.7.0/24 was refused %d times and served %d times (at most %d of its own 40 tokens were ever admitted); 0.5-0.8 s after the flood its queries are still REFUSED (%d of 3) although queries of never-seen subnets sent just before and just after each of them were served, so the global bucket was not the reason", floodSent, refused1, admitted1, 4*admitted1, sandwiches),
+			map[string]any{"fn": "c15E2EGlobal", "victim_admitted_during_flood": admitted1, "victim_refused_during_flood": refused1, "refused_between_served_neighbours": sandwiches})
+		return
+	}
+	if served == 0 {
+		c.Inconclusive(fmt.Sprintf("global-limit scenario: no decisive round after the flood (%d refusals between served neighbours)", sandwiches))
+		return
+	}
+	c.Ev.Distinct("e2e", "global-limit-then-quiet-subnet-served")
+	c.Ev.Count("e2e_global_victim_served_after_flood", 1)
+}
